@@ -285,6 +285,78 @@ def gen_inj(full):
       yield Case('INJ', Program(rules), preds)
 
 
+# ---- WIDE: shapes beyond the small-scope grammars (one representative per dimension rather than a product):
+# >= 10 columns / body literals / variables / rules / nesting levels / chained intermediate predicates
+def gen_wide(full):
+  vs = [V('x%d' % i) for i in range(13)]
+  n = 12
+  # chain join of n table literals (aliases t_10, t_11 ...), and a star of n unary literals
+  chain = tuple(Lit('A', vs[i], vs[i + 1]) for i in range(n))
+  yield Case('WIDE', Program([R('T', vs[0], vs[n], body=chain)]), ['T'])
+  yield Case('WIDE', Program([R('T', *vs[:n + 1], body=chain)]), ['T'])
+  yield Case('WIDE', Program([R('T', *reversed(vs[:n + 1]), body=chain)]), ['T'])
+  star = tuple(Lit('B', v) for v in vs[:n])
+  if full: yield Case('WIDE', Program([R('T', *vs[:n], body=star)]), ['T'], info='big')
+  yield Case('WIDE', Program([R('T', vs[0], vs[10], vs[2], vs[11], body=star + (Cmp('<', vs[2], vs[10]), Cmp('<=', vs[11], vs[1]), Cmp('!=', vs[0], vs[9])))]), ['T'], info='big')
+  # 12 positional and 12 named columns in every order of definition
+  cols = [x, y, Bin('+', x, y), N(3), Bin('*', x, N(10)), Bin('-', y, x), N(6), Bin('+', y, N(7)), x, Bin('*', y, y), Bin('+', x, N(10)), Bin('+', y, N(11)), Bin('-', N(12), x)]
+  yield Case('WIDE', Program([R('T', *cols, body=(Lit('A', x, y),))]), ['T'])
+  yield Case('WIDE', Program([R('T', named={'a%d' % i: c for i, c in enumerate(cols)}, body=(Lit('A', x, y),))]), ['T'])
+  yield Case('WIDE', Program([R('T', named={'a%d' % i: c for i, c in reversed(list(enumerate(cols)))}, body=(Lit('A', x, y),))]), ['T'])
+  yield Case('WIDE', Program([R('T', *cols[:11], named={'z': x, 'a': y, 'col': Bin('+', x, y)}, body=(Lit('A', x, y),))]), ['T'])
+  # a 13-column predicate read back positionally through a non-injected and an injected intermediate
+  W = R('W', *cols, body=(Lit('A', x, y),))
+  rd = R('T', vs[12], vs[10], vs[2], vs[1], body=(Lit('W', *vs),))
+  yield Case('WIDE', Program([W, rd]), ['T', 'W'])
+  yield Case('WIDE', Program([W, Ann('@NoInject(W);'), rd]), ['T', 'W'])
+  yield Case('WIDE', Program([W, Ann('@NoInject(W);'), R('T', vs[10], vs[11], body=(Lit('W', **{'col10': vs[10], 'col11': vs[11], 'col2': vs[2]}), Cmp('>', vs[2], N(2))))]), ['T'])
+  Wn = R('W', named={'f%d' % i: c for i, c in enumerate(cols)}, body=(Lit('A', x, y),))
+  yield Case('WIDE', Program([Wn, R('T', vs[10], vs[2], vs[11], body=(Lit('W', f10=vs[10], f2=vs[2], f11=vs[11]),))]), ['T', 'W'])
+  # records and lists with >= 10 members
+  rec = ('rec', tuple(('f%d' % i, c) for i, c in enumerate(cols)))
+  yield Case('WIDE', Program([R('T', x, y, rec, body=(Lit('A', x, y),))]), ['T'])
+  yield Case('WIDE', Program([R('T', ('fld', V('r'), 'f10'), ('fld', V('r'), 'f2'), ('fld', V('r'), 'f12'), body=(Lit('A', x, y), Eq(V('r'), rec)))]), ['T'])
+  lst = ('list', tuple(cols))
+  yield Case('WIDE', Program([R('T', x, y, lst, Call('Size', lst), ('elem', lst, N(10)), ('elem', lst, N(2)), ('elem', lst, N(12)), body=(Lit('A', x, y),))]), ['T'])
+  yield Case('WIDE', Program([R('T', x, y, z, body=(Lit('A', x, y), ('in', z, lst)))]), ['T'])
+  yield Case('WIDE', Program([R('T', x, y, z, body=(Lit('A', x, y), ('in', z, ('list', (x, x, y, x, N(1), N(1), y)))))]), ['T'])
+  # many rules / disjuncts / nested disjunction
+  bodies = [(Lit('A', x, y),), (Lit('A', y, x),), (Lit('B', x), Lit('B', y)), (Lit('B', x), Eq(y, x)), (Lit('A', x, z), Lit('A', z, y)), (Lit('B', y), Eq(x, N(1))), (Lit('A', x, y), Lit('B', x))]
+  yield Case('WIDE', Program([R('T', x, y, body=b) for b in bodies]), ['T'])
+  yield Case('WIDE', Program([R('T', x, y, body=(('or', tuple(bodies)),))]), ['T'])
+  yield Case('WIDE', Program([R('T', x, y, body=(Lit('B', x), ('or', tuple(bodies[:5]))))]), ['T'])
+  nest = ('or', ((Lit('A', x, y),), (Lit('B', x), ('or', ((Lit('B', y), Cmp('<', x, y)), (Lit('A', y, z), ('or', ((Lit('B', z),), (Eq(z, x),)))))))))
+  yield Case('WIDE', Program([R('T', x, y, body=(nest,))]), ['T'])
+  yield Case('WIDE', Program([R('T', x, y, body=(('or', ((Lit('A', x, y),), (Lit('A', y, x),))), ('or', ((Lit('B', x),), (Lit('B', y),))), ('or', ((Cmp('<', x, N(2)),), (Cmp('>=', y, N(2)),)))))]), ['T'])
+  # deep nesting of values
+  deep = ('rec', (('a', ('rec', (('b', ('rec', (('c', ('rec', (('d', x), ('e', ('list', (y, y)))))),))),))),))
+  yield Case('WIDE', Program([R('T', x, deep, ('fld', ('fld', ('fld', ('fld', deep, 'a'), 'b'), 'c'), 'd'), body=(Lit('A', x, y),))]), ['T'])
+  ll = ('list', (('list', (x, y)), ('list', (y,)), ('list', ())))
+  yield Case('WIDE', Program([R('T', x, y, ll, ('elem', ('elem', ll, N(0)), N(1)), Call('Size', ('elem', ll, N(2))), body=(Lit('A', x, y),))]), ['T'])
+  yield Case('WIDE', Program([R('T', x, y, V('e'), body=(Lit('A', x, y), ('in', V('l'), ll), ('in', V('e'), V('l'))))]), ['T'])
+  ifc = x
+  for i in range(5): ifc = ('if', Bin('==', Bin('+', x, y), N(i + 1)), N(10 * i), ifc)
+  yield Case('WIDE', Program([R('T', x, y, ifc, body=(Lit('A', x, y),))]), ['T'])
+  e = x
+  for i in range(12): e = Bin('+' if i % 2 else '*', e, (y if i % 3 else N(i)))
+  yield Case('WIDE', Program([R('T', x, y, e, body=(Lit('A', x, y),))]), ['T'])
+  # chains of 6 intermediate predicates: injected, non-injected, functional, mixed with projection and swap
+  def chain_rules(k, anns=()):
+    rs = [R('P0', x, y, body=(Lit('A', x, y),))]
+    for i in range(1, k):
+      rs.append(R('P%d' % i, y, x, body=(Lit('P%d' % (i - 1), x, y),)) if i % 2 else R('P%d' % i, x, Bin('+', y, N(1)), body=(Lit('P%d' % (i - 1), x, y), Lit('B', x))))
+    return rs + [Ann(a) for a in anns]
+  for anns in ((), ('@NoInject(P2);',), ('@NoInject(P1);', '@NoInject(P3);', '@NoInject(P4);'), ('@With(P2);', '@NoInject(P2);')):
+    yield Case('WIDE', Program(chain_rules(6, anns) + [R('T', x, y, body=(Lit('P5', x, y),))]), ['T', 'P5', 'P3'])
+  yield Case('WIDE', Program(chain_rules(6) + [R('T', x, z, body=(Lit('P5', x, y), Lit('P4', y, z), Lit('P1', z, x)))]), ['T'])
+  fs = [R('F0', x, value=Bin('+', x, N(1)))] + [R('F%d' % i, x, value=Bin('*' if i % 2 else '+', Call('F%d' % (i - 1), x), N(2))) for i in range(1, 6)]
+  yield Case('WIDE', Program(fs + [R('T', x, Call('F5', x), Call('F2', Call('F3', x)), body=(Lit('B', x),))]), ['T'])
+  # 11 predicates used side by side (generated names beyond one digit)
+  many = [R('Q%d' % i, x, Bin('+', y, N(i)), body=(Lit('A', x, y),)) for i in range(11)]
+  yield Case('WIDE', Program(many + [R('T', x, *vs[:11], body=tuple(Lit('Q%d' % i, x, vs[i]) for i in range(11)))]), ['T'])
+  yield Case('WIDE', Program(many + [Ann('@NoInject(Q%d);' % i) for i in (1, 10)] + [R('T', x, vs[1], vs[10], body=(Lit('Q1', x, vs[1]), Lit('Q10', x, vs[10]), Lit('Q2', x, vs[2]), Cmp('<', vs[2], vs[10])))]), ['T', 'Q10'])
+
+
 def gen_reccol():
   Rp = [R('Rp', x, ('rec', (('a', x), ('b', y))), body=(Lit('A', x, y),)), Ann('@NoInject(Rp);')]
   yield Case('EXPR', Program(Rp + [R('T', V('p'), V('q'), body=(Lit('Rp', x, V('r')), Eq(V('p'), ('fld', V('r'), 'a')), Eq(V('q'), ('fld', V('r'), 'b'))))]), ['T', 'Rp'])
@@ -338,8 +410,13 @@ def gen_str(full, agg=False):
   yield Case('STR', Program([J, R('T', t1, body=(Lit('S', s1), Lit('J', s1, t1), Cmp('>', t1, S('aa'))))]), ['T'], schema='ABS')
 
 
+def val_dbs():
+  """values outside {1,2}: zero, negative and two-digit numbers (text order differs from numeric order), a fraction"""
+  return dbs_ab(1, vals=(-1, 0, 10)) + dbs_ab(2, vals=(2, 10)) + dbs_ab(1, vals=(0.5, 2))
+
+
 def c01_cases(thorough):
-  dbs = dbs_ab(2)
+  dbs = dbs_ab(2) + val_dbs()
   dbs3 = dbs_ab(3) if thorough else None      # thorough: all multisets of <=3 rows per table (35 x 10 = 350 databases) for the smaller families
   gens = [gen_cq(3 if thorough else 2), gen_cons(2 if thorough else 1), gen_disj(thorough), gen_expr(thorough), gen_reccol(), gen_func(thorough), gen_inj(thorough)]
   seen = set()
@@ -348,10 +425,13 @@ def c01_cases(thorough):
       t = c.text()
       if t in seen: continue
       seen.add(t)
-      c.dbs = dbs3 if (thorough and c.family in ('CONS', 'DISJ', 'EXPR', 'FUNC', 'INJ')) else dbs; c.fact_dbs = FACT_DBS_AB
+      c.dbs = (dbs3 + val_dbs()) if (thorough and c.family in ('CONS', 'DISJ', 'EXPR', 'FUNC', 'INJ')) else dbs; c.fact_dbs = FACT_DBS_AB
       yield c
   for c in gen_str(thorough):
     c.dbs = semcheck.dbs_abs(); c.fact_dbs = semcheck.FACT_DBS_ABS
+    yield c
+  for c in gen_wide(thorough):
+    c.dbs = dbs_ab(2); c.fact_dbs = FACT_DBS_AB
     yield c
 
 
@@ -469,6 +549,57 @@ def gen_agge(full):
   yield Case('AGGE', Program([J, R('T', y, s_, body=(Lit('B', y), Lit('J', y, s_)))]), ['T'])
   yield Case('AGGE', Program([J, R('T', x, y, s_, body=(Lit('A', x, y), Lit('J', y, s_)))]), ['T'])
   yield Case('AGGE', Program([J, R('T', x, y, s_, body=(Lit('A', x, y), Lit('J', x, s_)))]), ['T'])
+
+
+def gen_wide_agg(full):
+  """C02 shapes beyond the small grammars: many aggregates / keys per head, many combines per rule, 3-4 levels of nesting"""
+  vs = [V('s%d' % i) for i in range(12)]
+  ops = ['Sum', 'Min', 'Max', 'Count', 'List', 'Set', 'Avg']
+  # 4 keys + 9 aggregated columns, positions >= 10 aggregated; named counterpart
+  aggs = [Aggr(ops[i % 7], (y, Bin('+', x, y), N(1), Bin('*', y, N(10)))[i % 4]) for i in range(9)]
+  keys = [x, Bin('+', x, N(10)), Bin('*', x, N(2)), N(7)]
+  yield Case('WIDEAGG', Program([R('T', *(keys + aggs), body=(Lit('A', x, y),), distinct=True)]), ['T'])
+  yield Case('WIDEAGG', Program([R('T', named=dict([('k%d' % i, k) for i, k in enumerate(keys)] + [('g%d' % i, a) for i, a in enumerate(aggs)]), body=(Lit('A', x, y),), distinct=True)]), ['T'])
+  yield Case('WIDEAGG', Program([R('T', *aggs, Aggr('Sum', x), Aggr('Max', x), Aggr('List', x), body=(Lit('A', x, y),), distinct=True)]), ['T'], info='keyless')
+  # a 13-column aggregated intermediate read back (grouped table -> positional join)
+  W = R('W', *(keys + aggs), body=(Lit('A', x, y),), distinct=True)
+  yield Case('WIDEAGG', Program([W, R('T', vs[0], vs[10], vs[11], vs[4], body=(Lit('W', vs[0], vs[1], vs[2], vs[3], vs[4], vs[5], vs[6], vs[7], vs[8], vs[9], vs[10], vs[11], V('s12')),))]), ['T', 'W'])
+  yield Case('WIDEAGG', Program([W, R('T', vs[0], Aggr('Sum', vs[10]), Aggr('Max', vs[4]), body=(Lit('W', **{'col0': vs[0], 'col10': vs[10], 'col4': vs[4]}),), distinct=True)]), ['T'])
+  # 11 combines in one rule (generated names beyond one digit), correlated and not
+  inner = [(Lit('A', x, y),), (Lit('A', y, x),), (Lit('A', x, y), Lit('B', y)), (Lit('A', y, z), Lit('B', z)), (Lit('A', y, y),), (('in', y, ('list', (x, N(1), N(1)))),)]
+  body = (Lit('B', x),) + tuple(Eq(vs[i], Comb(ops[i % 7], (y, Bin('+', x, y))[i % 2], inner[i % 6])) for i in range(11))
+  yield Case('WIDEAGG', Program([R('T', x, *vs[:11], body=body)]), ['T'])
+  yield Case('WIDEAGG', Program([R('T', x, vs[10], vs[2], body=body + (Cmp('>=', vs[3], N(0)),))]), ['T'])
+  # 4 levels of combine nesting, every level correlated with the outermost variable
+  c3 = Comb('Sum', z, (Lit('A', x, z),))
+  c2 = Comb('Max', Bin('+', y, c3), (Lit('A', x, y),))
+  c1 = Comb('List', Bin('+', V('w'), c2), (Lit('B', V('w')), Cmp('<=', V('w'), x)))
+  yield Case('WIDEAGG', Program([R('T', x, c1, body=(Lit('B', x),))]), ['T'])
+  c4 = Comb('Count', V('v'), (Lit('B', V('v')), Cmp('>', Comb('Sum', V('w'), (Lit('A', V('v'), V('w')), Cmp('>=', Comb('Max', z, (Lit('A', V('w'), z),)), x))), N(0))))
+  yield Case('WIDEAGG', Program([R('T', x, c4, body=(Lit('B', x),))]), ['T'])
+  # negation nested 4 deep, alternating with combine and disjunction
+  n4 = Not(Lit('A', x, y), Not(Lit('A', y, z), Not(Lit('B', z), Not(Lit('A', z, x)))))
+  yield Case('WIDEAGG', Program([R('T', x, body=(Lit('B', x), n4))]), ['T'])
+  yield Case('WIDEAGG', Program([R('T', x, body=(Lit('B', x), Not(Lit('A', x, y), Not(Lit('B', y)), Cmp('>', Comb('Count', z, (Lit('A', y, z), Not(Lit('B', z)))), N(0)))))]), ['T'])
+  yield Case('WIDEAGG', Program([R('T', x, Aggr('Sum', Comb('Count', z, (Lit('A', y, z), Not(Lit('A', z, x))))), body=(Lit('A', x, y), Not(Lit('B', y), Not(Lit('A', y, y)))), distinct=True)]), ['T'])
+  # aggregation inside an injected predicate inside a disjunction inside a negation
+  J = R('J', x, s_, body=(Eq(s_, Comb('Sum', y, (Lit('A', x, y),))),))
+  yield Case('WIDEAGG', Program([J, R('T', x, body=(Lit('B', x), ('or', ((Not(Lit('J', x, s_), Cmp('>', s_, N(2))),), (Not(Lit('A', x, x)), Lit('J', x, N(2)))))))]), ['T'])
+  yield Case('WIDEAGG', Program([J, R('T', y, Aggr('List', s_), body=(Lit('A', x, y), ('or', ((Lit('J', x, s_),), (Lit('J', y, s_), Not(Lit('B', x)))))), distinct=True)]), ['T'])
+  # chain of 5 aggregating predicates, each grouping the previous one
+  rs = [R('G0', x, Aggr('Sum', y), body=(Lit('A', x, y),), distinct=True)]
+  for i in range(1, 5):
+    rs.append(R('G%d' % i, (x, Bin('+', x, N(1)), Bin('%', x, N(2)), N(0))[i % 4], Aggr(('Max', 'Sum', 'Count', 'Min')[i % 4], Bin('+', y, N(i))), body=(Lit('G%d' % (i - 1), x, y),), distinct=True))
+  yield Case('WIDEAGG', Program(rs + [R('T', x, y, body=(Lit('G4', x, y),))]), ['T', 'G4', 'G2'])
+  yield Case('WIDEAGG', Program(rs + [Ann('@NoInject(G1);'), Ann('@NoInject(G3);'), R('T', x, y, z, body=(Lit('G4', x, y), Lit('G2', x, z)))]), ['T'])
+  # groups with many members and duplicates: sums, K-best and ordering of 2-digit values inside a group
+  big = tuple(('in', V(n), ('list', (N(1), N(2), N(10), N(2), N(-3), N(0)))) for n in ('x', 'y'))
+  for op in ops:
+    yield Case('WIDEAGG', Program([R('T', Bin('%', Bin('+', x, N(3)), N(2)), Aggr(op, Bin('+', Bin('*', x, N(10)), y)), body=big, distinct=True)]), ['T'])
+  for op in ('ArgMin', 'ArgMax'):
+    yield Case('WIDEAGG', Program([R('T', Bin('%', Bin('+', x, N(3)), N(2)), Aggr(op, ('arrow', ('list', (x, y)), Bin('+', Bin('*', x, N(100)), y))), body=big, distinct=True)]), ['T'])
+    dfn = Ann('%s3(a) = %sK(a, 3);' % (op, op))
+    yield Case('WIDEAGG', Program([dfn, R('T', x, Aggr(op + '3', ('arrow', y, Bin('-', Bin('*', y, y), Bin('*', y, N(4))))), body=big, distinct=True)]), ['T'])
 
 
 def gen_neg(full):
@@ -606,12 +737,12 @@ def sub_exprs(e):
 
 
 def c02_cases(thorough):
-  dbs = (dbs_ab(3) if thorough else dbs_ab(2)) + TIE_DBS_AB
+  dbs = (dbs_ab(3) if thorough else dbs_ab(2)) + TIE_DBS_AB + val_dbs()
   seen = set()
   for c in gen_str(thorough, agg=True):
     c.dbs = semcheck.dbs_abs(); c.fact_dbs = semcheck.FACT_DBS_ABS
     yield c
-  for g in (gen_aggh(thorough), gen_agge(thorough), gen_neg(thorough)):
+  for g in (gen_aggh(thorough), gen_agge(thorough), gen_neg(thorough), gen_wide_agg(thorough)):
     for c in g:
       if c is None: continue
       t = c.text()
